@@ -176,7 +176,9 @@ def anchorless_allowed(stmts, inputs, optimize: bool) -> set:
             return True
         if e[0] == "sel" and not eff(e[1]) and it_ is not None:
             try:
-                return bool(lang.ival(it_.ev(e[1], env_))) and decided_alias(e[2])
+                # a selection decided true IS its value expression: the name adds no combinator of
+                # its own (whether the value's node is labelled with it is C20's business)
+                return bool(lang.ival(it_.ev(e[1], env_)))
             except Exception:
                 return False
         return False
